@@ -319,3 +319,32 @@ PROPS["C08"] = dict(units=c08_units, bounds_text=_field + "; real objects: every
                     outside="Solar.GetJulianDay at second resolution (not encodable; 3-hour marks in C04); years not listed for the real-object part", unit_timeout_ms={"quick": 900000, "thorough": 2400000})
 PROPS["C11"] = dict(units=c11_units, bounds_text=_field + ", both sects; pillar purity over pairs of such states", outside="list-valued hour yi/ji routes; reverse lookup default sect (C10)", unit_timeout_ms={"quick": 900000, "thorough": 2400000})
 PROPS["C18"] = dict(units=c18_units, bounds_text=_field + "; purity over pairs of such states; table laws evaluated concretely", outside="list-valued yi/ji/jishen/xiongsha purity (structural: the accessors pass exactly the pillar strings to table functions)")
+
+
+def holiday_years():
+    try:
+        src = open(os.path.join(REPO, "HolidayUtil", "HolidayUtil.go")).read()
+        mm = re.search(r'const data = "([0-9~]*)"', src)
+        d = mm.group(1)
+        ys = sorted({int(d[i:i + 4]) for i in range(0, len(d) - 17, 18)} | {int(d[i + 10:i + 14]) for i in range(0, len(d) - 17, 18)})
+        return [y for y in ys if 1990 <= y <= 2100]
+    except Exception:
+        return list(range(2001, 2026))
+
+
+def c14_units(tier, seed):
+    q = tier == "quick"
+    ys = holiday_years()
+    us = []
+    for Y in ys + [ys[0] - 1, ys[-1] + 1]:
+        for m in range(1, 13):
+            us.append(dict(id=f"C14a[Y={Y},m={m}]", harness="HolidayUtil.VH_C14_Views", params={"Y": Y, "M": m}))
+    ys2 = ys[-6:] + ys[:2] if q else ys
+    for Y in ys2:
+        us += per_year("calendar.VH_C14_WorkdayStep", "C14b", [Y], {"N": 3 if q else 6})
+        us += per_year("calendar.VH_C14_SalaryRate", "C14c", [Y])
+    return us
+
+
+PROPS["C14"] = dict(units=c14_units, bounds_text="every day of every month of every year present in the packed table (plus the year before and after): day lookup with symbolic day, month/year views, target view per day; workday stepping |n|<=3 (quick) / 6 (thorough) and pay rate for every day of the listed table years",
+                    outside="HolidayUtil.Fix with symbolic fix-up strings (in-place rewriting of the packed table is beyond the string model); larger step counts")
